@@ -60,6 +60,7 @@ BUG_FOCUS["W11"] = BUG_FOCUS_W10 = None
 BUG_FOCUS["W10"] = "Additional guidance for this round: work in the less travelled code - src/puresnmp/api/pythonic.py, src/puresnmp/varbind.py, src/puresnmp/transport.py (also `listen`), src/puresnmp/credentials.py, src/puresnmp/adt.py, src/puresnmp/plugins/*.py, src/puresnmp_plugins/**, src/puresnmp/util.py helpers other than the obvious one - and prefer a change whose effect travels: a value computed in one module and consumed in another, a default that meets a caller elsewhere, an object shared where a copy was expected, a check that moved before / after the thing it protects. Keep each change small (2-12 changed lines) and plausible as a clean-up, optimisation or robustness fix. The two changes must be in different files and of different kinds."
 
 BUG_FOCUS["W11"] = BUG_FOCUS["W10"]
+BUG_FOCUS["W12"] = "Additional guidance for this round: prefer a defect that needs a MULTI-STEP HISTORY to show: state that survives from one call to the next on the same Client / security model / protocol object (counters, caches, request ids, configuration stacks, pending futures, lists that grow), a second or third call behaving differently from the first, two nested or overlapping uses of the same context manager, an operation issued after a failed / timed-out / cancelled one, a long walk that crosses an internal threshold. A single first call on a fresh client must behave exactly as before. Keep each change small (2-12 changed lines) and plausible as a clean-up, optimisation or robustness fix. The two changes must be in different files or functions and of different kinds."
 
 
 def props():
